@@ -97,7 +97,7 @@ def main():
         all_dumps[k] = d
         by_cfg.setdefault(name, []).append(k)
   # ---- spec -> code
-  nreplay = 2500 if args.tier == "quick" else 10**9
+  nreplay = 2500 if args.tier == "quick" else 40000
   # water-filling over the configs (small configs are replayed completely, the rest share the remaining budget)
   chosen, left, todo = [], nreplay, sorted(by_cfg, key=lambda n: len(by_cfg[n]))
   while todo:
@@ -188,7 +188,7 @@ def main():
       "rule": "scenario = (float graph, mode per op, I/O modes); enumerated exhaustively by TLC within each config's bound, "
               "plus seeded random graphs of 3-9 ops; distinct by canonical scenario JSON; non-trivial = at least one operator "
               "or the model I/O is in a quantised mode",
-      "exhaustive": args.tier == "thorough",
+      "exhaustive": len(chosen) == len(all_dumps),
       "configs": per_cfg, "outcomes": outcomes, "impl_wall_s": round(t_impl, 1),
       "observed_clauses": spec["clauses"], "design_invariants": spec["inv"],
       "samples": [dict(scenario=r["scn"], outcome=r["outcome"], why=r["why"], concrete_ops=r.get("codes")) for r in results[:2] + results[-2:]],
